@@ -48,7 +48,7 @@ def one(name, tier, demo):
             res["demo_fails_with_change"] = r1 != 0
             res["demo_passes_without"] = r0 == 0
         for pid in props:
-            env = dict(os.environ, PERSIM_ROOT=wt)
+            env = dict(os.environ, PERSIM_ROOT=wt, VERIF_EVIDENCE_DIR=os.path.join(SCR, "evidence-" + name))
             env.setdefault("VERIF_SEED", "0")
             rc, out = sh(["/venv/bin/python", os.path.join(VERIF, "check.py"), pid, "--tier", tier], cwd=VERIF, env=env, timeout=3000)
             vio = [l for l in out.split("\n") if l.startswith("VIOLATION")]
